@@ -211,6 +211,45 @@ def cmd_variant(body, t):
     return {v.split("::")[-1] for v in vs if isinstance(v, str) and v.startswith("terminal::TerminalCommand::")}
 
 
+def _feasible_defs(body, local, feas, seen=None, use=None):
+    """(value set or None, feasible) for every definition of `local`; a definition that only forwards another local whole
+    (`_a = move _b`: a hoisted temporary, the result copy of an expanded helper, `let mark = chosen;`) is replaced by the definitions
+    of that local, so that the decision is taken where the value is chosen and with the feasibility of *that* block.
+    use = (bb, stmt index): where the value is consumed; a definition that is overwritten by another definition of the same local on
+    every feasible path to the use (`let mut m = Empty; if clear { m = Damaged }`) does not count as feasible."""
+    seen = set() if seen is None else seen
+    if local in seen:
+        return [(None, True)]
+    seen = seen | {local}
+    out = []
+    defs = body.defs_of(local)
+    cfg = body.cfg()
+    infeasible = {x for x in range(len(body.blocks)) if x not in feas}
+    for (dbb, si, rv) in defs:
+        feasible = dbb in feas
+        if feasible and use is not None and len(defs) > 1:
+            ubb, usi = use
+            order = lambda x: 10 ** 9 if x == "term" else x
+            later_same = [d for d in defs if d[0] == dbb and order(d[1]) > order(si) and (dbb != ubb or order(d[1]) < order(usi))]
+            others = {d[0] for d in defs if d[0] != dbb}
+            if later_same:
+                feasible = False
+            elif dbb != ubb and others and all(cfg.must_pass(others, exits=[ubb], start=s0, removed=infeasible)[0]
+                                                for s0 in cfg.succ[dbb] if s0 in feas):
+                feasible = False      # killed (or the use cannot be reached from here at all)
+        vs = None
+        if si != "term" and rv["k"] == "agg" and rv.get("ak") == "adt":
+            vs = {"%s::%s" % (rv["adt"], rv["variant"])}
+        elif si != "term" and rv["k"] == "use":
+            a = rv["a"]
+            if feasible and a["k"] in ("copy", "move") and not a["place"]["p"] and a["place"]["l"] > body.arg_count and body.defs_of(a["place"]["l"]):
+                out.extend(_feasible_defs(body, a["place"]["l"], feas, seen, use=(dbb, si)))
+                continue
+            vs = {v for v in value_variants(body, a) if isinstance(v, str)}
+        out.append((vs, feasible))
+    return out
+
+
 def run(ctx):
     prog = ctx.prog
     ctx.explanation = (
@@ -315,20 +354,16 @@ def run(ctx):
                 elif len(cl["fields"]) == 1 and (any(o[0] == "arg" and o[1] == 1 for o in og) or any(o[0] == "place" and "(*_1)" in o[1] for o in og)):
                     # the closure returns its capture: &mark ; mark's definitions that are feasible with clear == true must all be Damaged
                     cap = cl["fields"][0]
-                    ml = None
+                    ml, use = None, None
                     for d in new.defs_of(op_local(cap)):
-                        if d[1] != "term" and d[2]["k"] == "ref":
-                            ml = d[2]["place"]["l"]
+                        if d[1] != "term" and d[2]["k"] == "ref" and not d[2]["place"]["p"]:
+                            ml, use = d[2]["place"]["l"], (d[0], d[1])
                     if ml is None:
                         ml = op_local(cap)
+                        cds = [(b_, i_) for b_, i_, s_ in new.assigns() if s_["rv"] is cl]
+                        use = cds[0] if len(cds) == 1 else None
                     good, n_d = True, 0
-                    for (dbb, si, rv) in new.defs_of(ml):
-                        vs = None
-                        if si != "term" and rv["k"] == "agg":
-                            vs = {"%s::%s" % (rv["adt"], rv["variant"])}
-                        elif si != "term" and rv["k"] == "use":
-                            vs = {v for v in value_variants(new, rv["a"]) if isinstance(v, str)}
-                        feasible = dbb in feas
+                    for vs, feasible in _feasible_defs(new, ml, feas, use=use):
                         detail.setdefault("defs", []).append({"value": sorted(vs) if vs else None, "feasible_when_clear_is_true": feasible})
                         if feasible:
                             n_d += 1
